@@ -21,7 +21,7 @@ CONSTANTS Iteration,      \* "map" | "sorted"
           MaxTypes
 
 \* catalogue of registered types: name |-> the defects it has, in source order
-TypeCat == [a |-> <<>>, b |-> <<>>, h |-> <<>>,
+TypeCat == [a |-> <<>>, b |-> <<>>, h |-> <<>>, q |-> <<>>,     \* (q: an `or` of rule-sets with format types, no defect)
             v |-> <<"value">>, w |-> <<"value">>, m |-> <<"missing-ref">>, r |-> <<"bad-rule">>,
             c |-> <<"missing-in-choice", "missing-in-choice">>,       \* two `@x | @y` properties, nothing registered
             o |-> <<"missing-in-or", "value-in-or">>,                  \* two `or` rule-sets, each with its own defect
@@ -50,7 +50,7 @@ Register(t) == /\ ~done /\ t \notin Range(order) /\ Len(order) < MaxTypes
 
 Broken(S) == {t \in S : TypeCat[t] # <<>>}
 \* total order on names used by the sorted walk (internal types of the root come first)
-Rank == [a |-> 1, b |-> 2, c |-> 3, f |-> 4, g |-> 5, h |-> 6, i |-> 7, j |-> 8, k |-> 9, m |-> 10, o |-> 11, p |-> 12, r |-> 13, v |-> 14, w |-> 15, x |-> 16]
+Rank == [a |-> 1, b |-> 2, c |-> 3, f |-> 4, g |-> 5, h |-> 6, i |-> 7, j |-> 8, k |-> 9, m |-> 10, o |-> 11, p |-> 12, q |-> 13, r |-> 14, v |-> 15, w |-> 16, x |-> 17]
 Least(S) == CHOOSE t \in S : \A u \in S : Rank[t] <= Rank[u]
 Place(t, i) == <<t, i>>
 
